@@ -5,10 +5,10 @@ and the per-channel volts-per-bit vector of `_conversion_sample2v_from_meta`.  I
 executable; the driver `Drivers/C01.lean` calls exactly these definitions.
 
     def __getitem__(self, item):
-        if isinstance(item, int) or isinstance(item, slice):
-            return self.read(nsel=item, sync=False)
-        elif len(item) == 2:
+        if isinstance(item, tuple) and len(item) == 2:
             return self.read(nsel=item[0], csel=item[1], sync=False)
+        else:
+            return self.read(nsel=item, sync=False)
 
     def read(self, nsel=slice(0, 10000), csel=slice(None), sync=True):
         if hasattr(self, 'raw_channel_order'):
@@ -124,14 +124,15 @@ structure Rec (γ : Type) where
   s2v : Nat → γ                 -- `self.channel_conversion_sample2v[self.type][c]`, on-disk order
   cbin : Bool                   -- `self.is_mtscomp`
 
-/-- `Reader.read(nsel, csel, sync=False)`, statement by statement, array-at-a-time as NumPy does it:
-`cast` is `.astype(np.float32)`, `mul` the in-place multiplication by the gathered gain vector. -/
-def readM {α β γ : Type} (cast : Int → α) (mul : α → γ → β) (r : Rec γ) (nsel csel : Sel) :
+/-- The body of `Reader.read(nsel, csel, sync=False)` once the sample positions `self._raw[nsel, :]` visits are
+known, statement by statement, array-at-a-time as NumPy does it: `cast` is `.astype(np.float32)`, `mul` the
+in-place multiplication by the gathered gain vector. -/
+def readAt {α β γ : Type} (cast : Int → α) (mul : α → γ → β) (r : Rec γ) (rows : Except Err Axis) (csel : Sel) :
     Except Err (Out β) := do
   -- csel = self.raw_channel_order[csel]
   let cdisk := (← axisSel csel r.nc).map r.order
   -- self._raw[nsel, :]
-  let rpos ← if r.cbin then rowsCbin nsel r.ns else axisSel nsel r.ns
+  let rpos ← rows
   match rpos, cdisk with
   | .one t, .one c =>
     let row : Nat → α := fun k => cast (r.raw t k)            -- .astype(np.float32)
@@ -152,25 +153,37 @@ def readM {α β γ : Type} (cast : Int → α) (mul : α → γ → β) (r : Re
     let g := cs.map r.s2v
     .ok (.mat cs.length (d.map fun xs => List.zipWith mul xs g))   -- broadcast over rows
 
-/-- A `__getitem__` argument: a lone selector or a tuple of selectors. -/
+/-- `Reader.read(nsel, csel, sync=False)`: the sample axis is NumPy's on a `.bin`, mtscomp's on a `.cbin`. -/
+def readM {α β γ : Type} (cast : Int → α) (mul : α → γ → β) (r : Rec γ) (nsel csel : Sel) :
+    Except Err (Out β) :=
+  readAt cast mul r (if r.cbin then rowsCbin nsel r.ns else axisSel nsel r.ns) csel
+
+/-- `self._raw[(i, j, …), :]`, a TUPLE of Python ints as the sample selector.  On a memmap NumPy reads a tuple
+inside an index tuple as an index sequence (like a list).  mtscomp (`isinstance(item, tuple)` branch of the inner
+`self[item[0]]`): one element → `self[i]` is a 1-D row and `[:, item[1]]` raises IndexError (too many indices);
+two elements → `self[i][j]` is a scalar, IndexError again; any other length falls through to the 0-row fallback. -/
+def rowsTuple (cbin : Bool) (l : List Int) (n : Nat) : Except Err Axis :=
+  if cbin then
+    (if l.length = 1 ∨ l.length = 2 then .error .indexError else .ok (.many []))
+  else axisSel (.list l) n
+
+/-- A `__getitem__` argument: a lone selector, a pair `(nsel, csel)`, or a tuple of Python ints of any length
+(tuples of other lengths are modelled for integer elements only). -/
 inductive Item
   | single (s : Sel)
-  | tuple (l : List Sel)
+  | pair (nsel csel : Sel)
+  | intTuple (l : List Int)
   deriving Repr, DecidableEq
 
-/-- `Reader.__getitem__`.  A lone list has a `len`: with two elements it is taken for `(nsel, csel)` (its elements
-are Python ints), otherwise the method falls off its end and returns `None`; a lone NumPy integer has no `len`
-(`TypeError`); a tuple of another length than two also yields `None`. -/
+/-- `Reader.__getitem__`: only a 2-tuple is unpacked into `(nsel, csel)`; anything else — int, NumPy integer,
+slice, list, array, tuple of another length — is the sample selector, with every channel. -/
 def getitemM {α β γ : Type} (cast : Int → α) (mul : α → γ → β) (r : Rec γ) (item : Item) :
     Except Err (Out β) :=
   match item with
-  | .single (.int i) => readM cast mul r (.int i) (.slice Slice.all)
-  | .single (.slice s) => readM cast mul r (.slice s) (.slice Slice.all)
-  | .single (.npint _) => .error .typeError
-  | .single (.list [a, b]) => readM cast mul r (.int a) (.int b)
-  | .single (.list _) => .ok .pyNone
-  | .tuple [a, b] => readM cast mul r a b
-  | .tuple _ => .ok .pyNone
+  | .single s => readM cast mul r s (.slice Slice.all)
+  | .pair a b => readM cast mul r a b
+  | .intTuple [a, b] => readM cast mul r (.int a) (.int b)
+  | .intTuple l => readAt cast mul r (rowsTuple r.cbin l r.ns) (.slice Slice.all)
 
 /-- `Reader.read_samples(first_sample, last_sample, channels)` (its data part):
 `if channels is None: channels = slice(None)`; `self.read(slice(first_sample, last_sample), channels)`. -/
